@@ -283,4 +283,20 @@ AdjContiguous == [][/\ \A k \in DOMAIN st.blocks : IsPrefix(st.blocks[k], st'.bl
 CutKills == [][(st.open.k # 0 /\ (st'.open.k # st.open.k \/ st'.open.p # st.open.p))
                 => (Len(st'.blocks[st.open.k]) = Len(st.blocks[st.open.k]) + 1 \/ st'.dead # "")]_vars
 GNoResurrection == [][st.dead # "" => GOutcome(def, st', env).class # "ok"]_vars
+(* ------------------------------------------------------------------ C03 on choices *)
+\* exchanging two neighbouring single-item occurrences of different named items - plain options or
+\* members of a choice that yields a single value - leaves the outcome unchanged
+FieldIxOf(d, id) == CHOOSE k \in DOMAIN d.named : id \in {x.id : x \in FieldLeaves(d.named[k])}
+Swappable(d, e) ==
+  /\ e.t \in {"name", "eq"} /\ GOwner(d, e.s) # {}
+  /\ LET it == CHOOSE x \in GOwner(d, e.s) : TRUE  f == d.named[FieldIxOf(d, it.id)] IN
+     /\ (e.t = "name") = (it.kind # "arg")
+     /\ (IsLeaf(f) \/ (f.kind = "alt" /\ f.arity \in {"one", "opt"}))
+GSwapCommutes ==
+  (AdjFields(def) = {}) =>
+  \A k \in 1..(Len(line) - 1) :
+    LET a == line[k]  b == line[k + 1] IN
+    (Swappable(def, a) /\ Swappable(def, b) /\ GOwner(def, a.s) # GOwner(def, b.s)
+       /\ ~GRun(def, GInitSt(def), SubSeq(line, 1, k - 1)).posOnly) =>
+      GOutcome(def, GRun(def, GInitSt(def), SubSeq(line, 1, k - 1) \o <<b, a>> \o SubSeq(line, k + 2, Len(line))), env) = GOut
 =============================================================================
